@@ -102,3 +102,29 @@ def random_script(rng, kind, elem, cap, nops, old_iface=False, old_vec=False):
                 if ex[d]: lines.append("%s %d %d" % (rng.choice(["Eq"] if old_vec else ["Eq", "Less"]), c, d))
     lines.append("End")
     return lines
+
+
+def big_script(rng, elem, n):
+    """a short history on vectors of n elements (n around 256 for the tracked type, 70000 for int): sizes and indices that do
+    not fit 8 / 16 bits; growth across many reallocations"""
+    vals = [rng.randrange(1, 100) for _ in range(n)]
+    lines = ["R vec %s 0" % elem, "CreateFrom 0 %s 0" % fmt(vals), "Create 1"]
+    lines += ["PushBack 0 7", "Insert 0 %d 9" % (n // 2), "Insert 0 0 3", "Erase 0 %d %d" % (n // 3, n // 3 + 300 if n > 1000 else n // 3 + 5),
+              "CopyAssign 1 0", "Eq 0 1", "EraseAt 1 %d" % (n // 2), "Less 1 0", "Resize 1 %d" % (n + 10), "Resize 1 %d" % (n - 7),
+              "MoveAssign 0 1", "PushBack 0 5", "PopBack 0", "At 0 %d" % (n - 8), "At 0 %d" % (n + 500), "Index 0 %d" % (n - 9), "Clear 0", "End"]
+    return lines
+
+
+def big_static_script(rng, elem, old_iface=False):
+    """static_vector<T,300>: sources of 0..600 elements, sizes and indices beyond the 8-bit boundary"""
+    N = 300
+    lines = ["R svec %s %d" % (elem, N)]
+    if old_iface:
+        lines += ["Create 0"] + ["PushBack 0 %d" % rng.randrange(1, 100) for _ in range(N + 5)]
+    else:
+        lines += ["CreateFrom 0 %s 0" % fmt([rng.randrange(1, 100) for _ in range(2 * N)])]
+    lines += ["CopyCtor 1 0", "Resize 0 %d" % (N - 40), "PushBack 0 7", "EmplaceBack 0 8"]
+    if not old_iface:
+        lines += ["Erase 0 10 %d" % (N // 2), "Erase 1 0 %d" % N]
+    lines += ["Resize 1 %d" % (N + 100), "CopyAssign 0 1", "MoveAssign 1 0", "Clear 1", "Index 1 0" if False else "Clear 0", "End"]
+    return lines
